@@ -10,7 +10,7 @@ use crate::framework::*;
 use crate::layout::{build_image, layout, ORG};
 use crate::pins::Pin;
 use serde_json::json;
-use std::collections::BTreeMap;
+use std::collections::{BTreeMap, BTreeSet};
 
 pub struct C13;
 pub struct C04;
@@ -46,6 +46,8 @@ pub fn c13_pins() -> Vec<(&'static str, &'static str)> {
     vec![
         ("continue_in_switch_in_dowhile", "unsigned char a, c; void main() { c = 2; do { c--; switch (a) { case 1: continue; } a++; } while (c); }"),
         ("goto_undefined_label", "unsigned char a; void main() { a = 1; goto nowhere; }"),
+        ("goto_label_named_in_asm_text_only", "unsigned char i; void main() { asm(\"loop: DEC i\", 2); if (i) goto loop; }"),
+        ("goto_label_as_substring_of_asm_text", "unsigned char i; void main() { asm(\"LDA #1 ; see .done below\", 2); asm(\"STA i ;xdone\", 2); goto done; }"),
         ("store_to_array_name", "unsigned char tab[4]; void main() { tab = 5; tab++; }"),
     ]
 }
@@ -91,6 +93,50 @@ fn c13_source(kind: &str, idx: u64, src: &str, opts_base: &Opts, levels: &[u8], 
         if b.asm.errors.iter().any(|e| e.kind == "image-too-large") {
             res.class = "accepted; image larger than one 4K bank (a size limit, not an assembly error)".into();
             return res;
+        }
+        // The builder emits the routines, parameters and locals of the functions the compiler
+        // reports as in use, and nothing else: emitted code that names a routine or a cell of a
+        // function outside that set references a symbol nobody defines
+        {
+            let mut owner: BTreeMap<&str, &str> = BTreeMap::new();
+            for f in &obs.funcs {
+                for l in &f.locals {
+                    owner.insert(l.as_str(), f.name.as_str());
+                }
+            }
+            let fnames: BTreeSet<&str> = obs.funcs.iter().map(|f| f.name.as_str()).collect();
+            let in_image: Vec<bool> = b.asm.func_ranges.iter().map(|r| r.3).collect();
+            let mut bad: Option<String> = None;
+            'scan: for l in &b.asm.lines {
+                if l.kind != LineKind::Instr || !in_image.get(l.func).copied().unwrap_or(false) {
+                    continue;
+                }
+                for tok in l.operand.split(|c: char| !(c.is_ascii_alphanumeric() || c == '_')) {
+                    if tok.is_empty() || tok.chars().next().unwrap().is_ascii_digit() {
+                        continue;
+                    }
+                    if let Some(o) = owner.get(tok) {
+                        if !obs.in_use.contains(*o) {
+                            bad = Some(format!("'{}' uses {}, a cell of function {} which is not in functions_actually_in_use (its storage is never declared)", l.text.trim(), tok, o));
+                            break 'scan;
+                        }
+                    }
+                    if l.mnemonic == "JSR" && fnames.contains(tok) && !obs.in_use.contains(tok) {
+                        bad = Some(format!("'{}' calls {}, which is not in functions_actually_in_use (the routine is never emitted)", l.text.trim(), tok));
+                        break 'scan;
+                    }
+                }
+            }
+            if let Some(w) = bad {
+                let s = sig.clone().unwrap_or(format!("C13:{}:{}", kind, idx));
+                res.class = "accepted but references an undefined symbol".into();
+                res.violate(
+                    &s,
+                    &format!("C13 -O{}: {}\n--- source\n{}", lvl, w, src),
+                    json!({"kind": kind, "idx": idx, "opt": lvl, "why": w, "source": src, "listing": listing(obs)}),
+                );
+                return res;
+            }
         }
         // data tables are written by the builder, and a name in an initialiser may belong to an
         // assembler file the compiler never sees: only the instruction text is judged
